@@ -1925,6 +1925,10 @@ func (h *fsmHandler) recvMessageloop(ctx context.Context, conn net.Conn, holdtim
 				doCallback := true
 				m := fmsg.MsgData.(*bgp.BGPMessage)
 				switch m.Header.Type {
+				case bgp.BGP_MSG_OPEN:
+					// RFC 4271 8.2.2 Established, RFC 6608: an OPEN is an FSM error here
+					nonblockSendChannel(h.fsm.notification, bgp.NewBGPNotificationMessage(bgp.BGP_ERROR_FSM_ERROR, bgp.BGP_ERROR_SUB_RECEIVE_UNEXPECTED_MESSAGE_IN_ESTABLISHED_STATE, nil))
+					return
 				case bgp.BGP_MSG_ROUTE_REFRESH:
 					// nothing to do here
 				case bgp.BGP_MSG_UPDATE:
